@@ -171,7 +171,10 @@ def run_native(u, tier, limit=None):
     case['env'] = dict(modenv, **case['env'])
     self_obj = case.get('self')
     try:
-      st, oc = check_call(u, fn, copy.deepcopy(args), copy.deepcopy(self_obj), case.get('env'))
+      if case.get('nocopy'):     # the case shares objects between receiver, arguments and its environment
+        st, oc = check_call(u, fn, args, self_obj, case.get('env'))
+      else:
+        st, oc = check_call(u, fn, copy.deepcopy(args), copy.deepcopy(self_obj), case.get('env'))
     except Violation as v:
       out['violation'] = {'unit': u['name'], 'clause': '%s[%s]' % (v.clause_kind, v.index),
                           'text': v.text, 'detail': v.detail, 'case': case.get('show', repr(args)[:300])}
